@@ -81,8 +81,11 @@ def run_driver(qsx, scen_text, workdir, tag, crash_props, call_timeout=60, wall=
             # memcheck on the plain build (C17: uninitialised reads that influence a result are invisible to ASan)
             cmd = ["valgrind", "-q", "--error-exitcode=0", "--num-callers=12", "--log-file=" + tf + ".vg"] + cmd
             e["QSX_CALL_TIMEOUT"] = str(max(call_timeout * 20, 600))
+        # the driver's own per-call watchdog decides hangs; the wall limit of the whole process is only a safety net and grows with the
+        # number of scenarios the process has to run (exit -99 = this net: treated like a watchdog expiry and re-run, never a verdict by itself)
+        nleft = 1 if one_per_process else len(blocks) - i
         try:
-            r = subprocess.run(cmd, cwd=workdir, env=e, timeout=wall,
+            r = subprocess.run(cmd, cwd=workdir, env=e, timeout=max(wall, 15 * nleft),
                                stdout=subprocess.DEVNULL, stderr=subprocess.DEVNULL)
             rc = r.returncode
         except subprocess.TimeoutExpired:
